@@ -52,6 +52,7 @@ func (ctx *Ctx) GenVC(fc *FuncContract) (res *FuncResult) {
 	entry := &State{reach: True, taint: False, base: "0", mbase: "0", heaps: map[Sort]Term{}, maps: map[string]Term{}, ghost: map[string]Term{}}
 	entry.alloc = vc.Fresh("alloc0", SInt)
 	entry.epochBound = entry.alloc
+	vc.entryAlloc = entry.alloc
 	entry.assume(Ge(entry.alloc, IntLit(1)))
 	for _, p := range fn.Params {
 		srt, err := vc.tt.SortOf(p.Type())
